@@ -686,10 +686,14 @@ func c17Check(ineligible []string) func(r *rig) (string, string, string) {
 		for _, n := range ineligible {
 			bad[n] = true
 		}
+		emptyHash := vh.MD5(nil)
 		for _, w := range r.wire {
 			for _, p := range w.Parts {
 				if bad[p.Name] {
 					return fmt.Sprintf("C17: ineligible file %s was transmitted / polled\n%s", p.Name, tr()), "", ""
+				}
+				if p.Hash == emptyHash || (w.Kind == "data" && p.Beg == p.End) {
+					return fmt.Sprintf("C17: %s was queued and %s as an EMPTY file (hash of nothing): an empty file is not eligible\n%s", p.Name, map[bool]string{true: "transmitted", false: "polled"}[w.Kind == "data"], tr()), "", ""
 				}
 			}
 		}
@@ -737,6 +741,8 @@ func c17Check(ineligible []string) func(r *rig) (string, string, string) {
 	}
 }
 
+var c17Unordered bool // set per run by the scenario's setup
+
 func TestC17Env(t *testing.T) {
 	d := 2
 	if vh.Thorough() {
@@ -752,7 +758,8 @@ func TestC17Env(t *testing.T) {
 	)
 	inel := []string{"g/.hidden", "g/x.lck"}
 	setup := func(r *rig) {
-		r.fileOps = []string{"rewrite", "append", "touch", "restore"}
+		c17Unordered = !r.conf.Ordered
+		r.fileOps = []string{"rewrite", "append", "touch", "restore", "truncate"}
 		delete(r.expect, "g/.hidden")
 		delete(r.expect, "g/x.lck")
 	}
@@ -760,6 +767,9 @@ func TestC17Env(t *testing.T) {
 	keep := conf
 	keep.Delete = false
 	scs = append(scs, envScenario{"2 eligible + 3 other files, 1 thread, keep, daemon (one deviation less)", keep, setup, d - 1})
+	unordered := conf
+	unordered.Ordered = false
+	scs = append(scs, envScenario{"2 eligible + 3 other files, 1 thread, delete, daemon, no ordering, a file may be emptied (one deviation less)", unordered, setup, d - 1})
 	runEnvProperty(t, "C17", "files changing between and during scans, hashing and transmission (E-ENV)", scs, d,
 		func(ev vh.EnvEvent, plan []vh.Deviation) []string {
 			if k := kindOf(ev.Key); k == "remove" || k == "sync" {
@@ -774,13 +784,21 @@ func TestC17Env(t *testing.T) {
 				if strings.Contains(m, ":restore:") && !strings.HasSuffix(m, ":g/a") {
 					continue // an older copy put in place: one file is enough
 				}
+				if strings.Contains(m, ":truncate:") {
+					// emptied: only in the scenario without ordering (an emptied file is never delivered,
+					// and in an ordered group its successors would wait for it for good - outside the property)
+					if c17Unordered && strings.HasSuffix(m, ":g/a") {
+						out = append(out, m)
+					}
+					continue
+				}
 				if strings.HasSuffix(m, ":g/a") || strings.HasSuffix(m, ":g/b") || (strings.HasSuffix(m, ":g/young") && strings.Contains(m, "append")) {
 					out = append(out, m)
 				}
 			}
 			return out
 		}, c17Check(inel),
-		fmt.Sprintf("all plans with <= %d deviations: file changes (rewritten with the same size, appended to, touched, replaced by a same-size copy with an OLDER modification time; created anew under its name when it was already delivered and deleted) applied to an eligible file at any externally visible action of the sender (scan, cache write, data / poll request, sent-log write, done-marking), and request failures (data request refused, a part corrupted in transit); daemon with scan delay 30 s, min-age 60 s, hidden file, lock file and a file that becomes old enough during the run present; oracle: ineligible files are never transmitted, polled, released or removed; what is delivered is one complete version; an unchanged version is transmitted once; 30 min after the last change the latest version of every eligible file is delivered and released", d))
+		fmt.Sprintf("all plans with <= %d deviations: file changes (rewritten with the same size, appended to, touched, replaced by a same-size copy with an OLDER modification time, emptied; created anew under its name when it was already delivered and deleted) applied to an eligible file at any externally visible action of the sender (scan, cache write, data / poll request, sent-log write, done-marking), and request failures (data request refused, a part corrupted in transit); daemon with scan delay 30 s, min-age 60 s, hidden file, lock file and a file that becomes old enough during the run present; oracle: ineligible files are never transmitted, polled, released or removed; what is delivered is one complete version; an unchanged version is transmitted once; 30 min after the last change the latest version of every eligible file is delivered and released", d))
 }
 
 // TestC17Elig: which files are queued, for every combination of the eligibility options, on a
